@@ -193,6 +193,25 @@ Definition t3ns (l : list A) : btree A :=
 
 End Named.
 
+
+(* ------------------------------------------------------------------ trees from add_child calls *)
+(* A builder that only attaches existing nodes (BasisTree.linear): node i has the i-th basis list,
+   `edges` are the (parent, child) positions in the order of the add_child calls.  add_child raises
+   when the child already has a parent, Tree.__init__ asserts that the root has none. *)
+Fixpoint tree_of_edges_f {A : Type} (fuel : nat) (nodes : list (list (basis A))) (edges : list (nat * nat)) (root : nat)
+  : btree A :=
+  match fuel with
+  | O => BNode (nth root nodes []) []
+  | S f => BNode (nth root nodes [])
+                 (map (fun e => tree_of_edges_f f nodes edges (snd e)) (filter (fun e => Nat.eqb (fst e) root) edges))
+  end.
+Fixpoint nodup_natb (l : list nat) : bool :=
+  match l with [] => true | x :: l' => negb (existsb (Nat.eqb x) l') && nodup_natb l' end.
+Definition tree_of_edges {A : Type} (n : nat) (nodes : list (list (basis A))) (edges : list (nat * nat)) (root : nat)
+  : option (btree A) :=
+  if nodup_natb (map snd edges) && negb (existsb (Nat.eqb root) (map snd edges))
+  then Some (tree_of_edges_f n nodes edges root) else None.
+
 (* flat export used by the correspondence: pre-order list of (number of children, basis sets) with
    Real a -> a+1 (a : nat), Dummy i -> -(i+1) is done on the harness side; here only the structure *)
 Fixpoint bflat {A : Type} (t : btree A) : list (nat * list (basis A)) :=
